@@ -169,8 +169,16 @@ def check(ctx, stretch):
         inc = [a for a in ir.drivers('bitno', exact=True) if any(o == kind for o, _, _ in val[q.state_of(a)])]
         ctx.need(len(inc) == 1 and inc[0].rhs.canon() == '1 + bitno', 'bit counter increment of the %s loop' % kind)
         s = q.state_of(inc[0])
-        o7 = state_outcomes(fsm, s, {'stb': True, '7 == bitno': True})
-        on = state_outcomes(fsm, s, {'stb': True, '7 == bitno': False})
+        # the bit-time tick: whatever every leaving edge of the loop state requires besides the bit number (a strobe
+        # signal, or the timer comparison written in place)
+        outs_ = [e for e in fsm.out_edges(s)]
+        tick = None
+        for e in outs_:
+            pa = {(x, p) for x, p in q.atoms(e) if 'bitno' not in x}
+            tick = pa if tick is None else (tick & pa)
+        tick = dict(tick or {('stb', True)})
+        o7 = state_outcomes(fsm, s, dict(tick, **{'7 == bitno': True}))
+        on = state_outcomes(fsm, s, dict(tick, **{'7 == bitno': False}))
         w = getattr(ir.signals.get('bitno'), 'w', None)
         ok = len(o7) == 1 and len(on) == 1 and set(o7) != set(on) and w == 3
         # after bit 7 the next state must lead to the ack cycle (not back into the data loop)
